@@ -251,7 +251,7 @@ def sym_inertia(A, n, prefix='c'):
   return Inertia(transform=Transform(pos=Sym(fm), rot=jp.tile(jp.array([1.0, 0, 0, 0]), (n, 1))), i=Sym(ii), mass=Sym(m)), fm, ii, m
 
 
-FORESTS = {'chain3[1,2,1]': ([-1, 0, 1], '121'), 'branch3[1,1,2]': ([-1, 0, 0], '112'), 'two-trees[f,1;2]': ([-1, 0, -1], 'f12'), 'chain2[3,1]': ([-1, 0], '31')}
+FORESTS = {'chain3[1,1,1]': ([-1, 0, 1], '111'), 'star3[1,1,1]': ([-1, 0, 0], '111'), 'chain3[1,2,1]': ([-1, 0, 1], '121'), 'branch3[1,1,2]': ([-1, 0, 0], '112'), 'two-trees[f,1;2]': ([-1, 0, -1], 'f12'), 'chain2[3,1]': ([-1, 0], '31')}
 
 
 def _forest_sys(parents, types):
@@ -270,6 +270,56 @@ def _imul(A, fm, ii, m, ang, vel):
   fa = sx.vadd(Iw, sx.cross(c, v))
   fv = sx.vsub(sx.vscale(v, X(m, A)), sx.cross(c, w))
   return fa, fv
+
+
+def crb_history(tiers):
+  """mass.matrix is a function of (sys, state) alone: evaluated for one tree and THEN, in the same process, for a different tree with the same per-link joint types,
+  it returns the second tree's composite-rigid-body form (a result cached under an incomplete key -- link_types without link_parents -- shows here and only here)"""
+  def run():
+    res = []
+    for (a, b) in (('chain3[1,1,1]', 'star3[1,1,1]'), ('star3[1,1,1]', 'chain3[1,1,1]')):
+      for nm in (a, b):
+        r = crb_form(nm, tiers).run()
+        if r.verdict != PROVED:
+          r.detail = 'after evaluating %s first, %s: %s' % (a, nm, r.detail) if nm == b else r.detail
+          if r.verdict == REFUTED:
+            r.replay = _native_history()
+          return r
+        res.append(r)
+    return combine(res)
+  return Obligation('C02/mass.matrix/crb_form[history: same joint types, different trees]', 'brax.generalized.mass:matrix', 'evaluated in ONE process for a chain and a star with identical link_types '
+                    '(in both orders): each call returns the composite-rigid-body form of ITS OWN tree -- the result depends on (sys, state) only, not on earlier calls', run, backend='ring', tiers=tiers, budget=900)
+
+
+def _native_history():
+  """generalized mass matrix of a chain and then of a star with the same joint types, in this one process, each against MuJoCo's dense inertia matrix"""
+  import mujoco
+  from brax.io import mjcf
+  from brax.generalized import pipeline
+  from verif.contracts import C04
+  worst = {}
+  for order in (('chain3[1,1,1]', 'star3[1,1,1]'), ('star3[1,1,1]', 'chain3[1,1,1]')):
+    for nm in order:
+      parents, types = FORESTS[nm]
+      xml = C04.tree_xml([(p, 'h' * int(t)) for p, t in zip(parents, types)])
+      sys = mjcf.loads(xml)
+      q = jp.asarray([0.3, -0.4, 0.5][:sys.q_size()])
+      st = pipeline.init(sys, q, jp.zeros(sys.qd_size()))
+      m = mujoco.MjModel.from_xml_string(xml)
+      d = mujoco.MjData(m)
+      d.qpos[:] = np.asarray(q)
+      mujoco.mj_forward(m, d)
+      M = np.zeros((m.nv, m.nv))
+      for c_ in range(m.nv):          # inertia matrix column by column (mj_mulM is stable across MuJoCo versions)
+        e_, r_ = np.zeros(m.nv), np.zeros(m.nv)
+        e_[c_] = 1.0
+        mujoco.mj_mulM(m, d, r_, e_)
+        M[:, c_] = r_
+      err = float(np.abs(np.asarray(st.mass_mx) - M).max())
+      worst['%s after %s' % (nm, order[0])] = err
+      if err > 1e-6:
+        return {'reproduced': True, 'what': 'mass matrix of %s (evaluated after %s in the same process) differs from MuJoCo by %.3g' % (nm, order[0], err), 'errors': worst}
+  return {'reproduced': False, 'errors': worst}
 
 
 def crb_form(name, tiers):
@@ -505,9 +555,12 @@ def obligations(tier):
       o.id = o.id.replace('C09/', 'C02/premise/')
       obs.append(o)
   for name in FORESTS:
+    if name in ('chain3[1,1,1]', 'star3[1,1,1]'):
+      continue          # used by the history obligation
     t = Q if name in ('chain3[1,2,1]', 'two-trees[f,1;2]') else Th
     obs.append(crb_form(name, t))
     obs.append(rne_form(name, t))
+  obs.append(crb_history(Q))
   obs += [cinr('h', 'free', Q), cinr('sh', 'root', Q), cinr('', 'root', Th), cinr('hs', 'free', Th)]
   obs += [passive_forward(), integrate_step(), integrate_free(), bounded(tier)]
   # "total smooth joint force including actuation": the actuation term is C11's contract; the clause that matters for floating-base models (q index != qd index) is proved here too
